@@ -47,7 +47,7 @@ class GaussianCopula(tfd.TransformedDistribution):
             scale_tril = None
         else:
             if validate_args:
-                assert np.all(dependence >= 0.0)
+                assert np.all(dependence >= -1.0)
                 assert np.all(dependence <= 1.0)
 
             tril11 = np.broadcast_to(1.0, batch_shape)
